@@ -163,7 +163,7 @@ class _InlineMixin:
         decl = None
         for m in self.ctx.rspirv.modules():
             for it in self.ctx.rspirv.items(m, "struct"):
-                if it.get("name") == name:
+                if it.get("name") == name and {fl[0] for fl in it.get("fields", []) if isinstance(fl, (list, tuple))} == set(fields):
                     decl = it
         if decl is None:
             return fields
